@@ -11,6 +11,8 @@ R5 views: ViewOnlyDict exposes no mutator; no handle method returns its interfac
 R6 cache on add: every handle method that creates a child interface under itself records it in its cache
 R7 loop index discipline for derived ids
 R8 connect_interface creates the service port and the link as a unit
+R10 set_type of each sliver class checks the value against the enumeration of that kind (NodeType, ComponentType ...)
+R9 a new Link type-checks the elements of `interfaces` (Interface objects only) before anything is inserted
 """
 import ast
 
@@ -19,6 +21,7 @@ import re
 
 from ..core import AnalysisError, norm, loc, walk_no_nested, attr_chain, call_name, kwarg, func_params
 from ..cfg import CFG
+from .. import flow
 from ..schema import containment_schema
 from .. import nxgraph as nxg
 from . import c08
@@ -348,6 +351,88 @@ def run(prog, rep):
     elif f'{{{ast.unparse(loops[0].target)}}}' not in ast.unparse(loops[0]):
         rep.violation('R7', loc(prog.cls("fim.user.topology:Topology").module, sw), 'Topology.add_switch', 'port names not derived from the loop index', 'port names/ids must differ per port')
 
+    # ---- R9: links join only interfaces ----
+    rep.rule('R9', 'a new Link is connected to Interface objects only (type test before the graph is touched)', floor=1)
+    lk = prog.cls('fim.user.link:Link')
+    li = inline(prog, lk, lk.methods['__init__'])
+    lcfg = CFG(li)
+    ldom = lcfg.dominators()
+    adds = [c for c in walk_no_nested(li) if isinstance(c, ast.Call) and call_name(c) == 'add_network_link_sliver']
+    if not adds:
+        raise AnalysisError('Link.__init__: add_network_link_sliver call not found')
+    iparam = 'interfaces'
+    type_tests = []
+    for t in lcfg.nodes:
+        if t.kind != 'test' or t.tag not in ('if', 'assert'):
+            continue
+        e = t.ast
+        ok_ = False
+        for c in ast.walk(e):
+            # all(isinstance(x, Interface) for x in interfaces)   /   any(not isinstance(...) ...)
+            if isinstance(c, ast.Call) and isinstance(c.func, ast.Name) and c.func.id in ('all', 'any') and c.args and \
+                    isinstance(c.args[0], (ast.GeneratorExp, ast.ListComp)):
+                g = c.args[0].generators[0]
+                if isinstance(g.iter, ast.Name) and g.iter.id == iparam and any(
+                        isinstance(x, ast.Call) and isinstance(x.func, ast.Name) and x.func.id == 'isinstance' and len(x.args) == 2 and
+                        ast.unparse(x.args[1]) == 'Interface' for x in ast.walk(c.args[0].elt)):
+                    ok_ = True
+        if ok_ and (t.tag == 'assert' or any(isinstance(x, ast.Raise) for x in ast.walk(getattr(e, '_parent', e)))):
+            type_tests.append(t)
+    an = flow.node_of(lcfg, adds[0])
+    guarded = an is not None and any(t.id in ldom.get(an.id, set()) for t in type_tests)
+    # a loop that tests every element before the insertion is accepted as well
+    if not guarded:
+        for l in walk_no_nested(li):
+            if isinstance(l, ast.For) and isinstance(l.iter, ast.Name) and l.iter.id == iparam and isinstance(l.target, ast.Name) and \
+                    any(isinstance(x, ast.Call) and isinstance(x.func, ast.Name) and x.func.id == 'isinstance' and len(x.args) == 2 and
+                        ast.unparse(x.args[1]) == 'Interface' and isinstance(x.args[0], ast.Name) and x.args[0].id == l.target.id for x in ast.walk(l)) and \
+                    any(isinstance(x, (ast.Raise, ast.Assert)) for x in ast.walk(l)):
+                hn = [nd for nd in lcfg.nodes if nd.kind == 'test' and nd.tag == 'for' and nd.ast is l]
+                guarded = bool(hn) and an is not None and hn[0].id in ldom.get(an.id, set())
+    rep.instance('R9', f'Link.__init__: element type tests before the insertion: {len(type_tests)}; insertion guarded: {guarded}')
+    if not guarded:
+        rep.violation('R9', loc(lk.module, adds[0]), 'Link.__init__', 'elements of `interfaces` are not type-checked before the link is inserted',
+                      'the constructor takes the node_id of whatever objects it is given: topology.add_link(interfaces=[node1, node2]) creates a '
+                      'Link that is connected to NetworkNodes (or components, services), which the published model rules forbid')
+
+    # ---- R10: the type of an element comes from the vocabulary of its kind ----
+    rep.rule('R10', 'set_type of every sliver class validates the type against the enumeration of that kind of element', floor=5)
+    VOCAB = {'fim.slivers.network_node:NodeSliver': 'NodeType', 'fim.slivers.attached_components:ComponentSliver': 'ComponentType',
+             'fim.slivers.interface_info:InterfaceSliver': 'InterfaceType', 'fim.slivers.network_service:NetworkServiceSliver': 'ServiceType',
+             'fim.slivers.network_link:NetworkLinkSliver': 'LinkType'}
+    for spec, enum_name in VOCAB.items():
+        sc = prog.cls(spec)
+        owner, st = sc.find_method('set_type')
+        if st is None:
+            raise AnalysisError(f'{sc.name}.set_type vanished')
+        sti = inline(prog, owner, st)
+        tparam = [p_ for p_ in func_params(sti) if p_ != 'self'][0]
+        checked = None
+        for n in walk_no_nested(sti):
+            test = n.test if isinstance(n, (ast.Assert, ast.If)) else None
+            if test is None:
+                continue
+            if isinstance(n, ast.If) and not any(isinstance(x, ast.Raise) for x in ast.walk(n)):
+                continue
+            for c in ast.walk(test):
+                if isinstance(c, ast.Call) and isinstance(c.func, ast.Name) and c.func.id == 'isinstance' and len(c.args) == 2 and \
+                        isinstance(c.args[0], ast.Name) and c.args[0].id == tparam:
+                    checked = c.args[1]
+        # the store must come after the test
+        stores = [n for n in walk_no_nested(sti) if isinstance(n, ast.Assign) and any(ast.unparse(t) == 'self.resource_type' for t in n.targets)]
+        vocab = None
+        if checked is not None:
+            if isinstance(checked, ast.Attribute) and isinstance(checked.value, ast.Name) and checked.value.id in ('self', 'cls'):
+                o2, e2 = sc.find_assign(checked.attr)
+                vocab = ast.unparse(e2) if e2 is not None else None
+            else:
+                vocab = ast.unparse(checked)
+        rep.instance('R10', f'{sc.name}.set_type (defined in {owner.name}) checks the type against {vocab}')
+        if checked is None or vocab != enum_name or not stores:
+            rep.violation('R10', loc(owner.module, st), f'{sc.name}.set_type', f'type of a {sc.name} is not checked against {enum_name}',
+                          f'{sc.name}.set_type stores whatever it is given (found vocabulary: {vocab}): element.set_property(\'type\', ...) can put a '
+                          f'value outside {enum_name} into the model, which the published model rules do not allow')
+
     # ---- R8 ----
     ci = ns.methods.get('connect_interface')
     pif = [n for n in walk_no_nested(ci) if isinstance(n, ast.Assign) and isinstance(n.value, ast.Call) and isinstance(n.value.func, ast.Name)
@@ -401,6 +486,11 @@ MUTANTS = [
      'find': '                        **kwargs)\n        self._interfaces.append(iff)\n        return iff', 'replace': '                        **kwargs)\n        return iff'},
     {'name': 'facility-index-reset-in-loop', 'file': TP, 'rule': 'R7',
      'find': '                iindex = 0\n                for iname, ilabels, icapacities in interfaces:\n', 'replace': '                for iname, ilabels, icapacities in interfaces:\n                    iindex = 0\n'},
+    {'name': 'link-accepts-any-object', 'file': 'fim/user/link.py', 'rule': 'R9',
+     'find': '            if not all(isinstance(iff, Interface) for iff in interfaces):\n                raise TopologyException("Links connect interfaces only: every element of the list must be an Interface.")\n',
+     'replace': ''},
+    {'name': 'service-type-vocabulary-dropped', 'file': 'fim/slivers/network_service.py', 'rule': 'R10',
+     'find': '    TYPE_CLASS = ServiceType\n', 'replace': ''},
 ]
 TWINS = [
     {'name': 'uniqueness-through-local-listing', 'file': TP,
